@@ -38,6 +38,9 @@ func cmdMatrix(args []string) {
 	if acc := p.tryVariants(obls, opts, work); len(acc) > 0 {
 		obls = replaceByVariants(obls, acc, func(o *Obligation) bool { return true })
 	}
+	for _, l := range p.variantLog {
+		fmt.Println("bipverif: alternatives:", l)
+	}
 	var props []string
 	for i := 1; i <= 17; i++ {
 		props = append(props, fmt.Sprintf("C%02d", i))
